@@ -14,3 +14,14 @@ if [ ! -x $V/bin/python ] || ! $V/bin/python -c "import z3, numpy" 2>/dev/null; 
 fi
 $V/bin/python -c "import z3, numpy; print('overlay venv ok: z3', z3.get_version_string(), 'numpy', numpy.__version__)"
 mkdir -p evidence replays
+# the engine's summation / index rules, proved with Mathlib (lean/Rules.lean); recorded for the evidence files' trusted base
+if command -v lean >/dev/null 2>&1 && [ -f lean/Rules.lean ]; then
+  SHA=$(sha256sum lean/Rules.lean | cut -c1-16)
+  if ! grep -q "\"$SHA\"" lean/compiled.json 2>/dev/null; then
+    T0=$(date +%s); OKV=false
+    if (cd lean && timeout 1200 lean Rules.lean > compile.log 2>&1) && ! grep -q "error\|sorry" lean/compile.log; then OKV=true; fi
+    N=$(grep -c "^theorem " lean/Rules.lean)
+    echo "{\"sha256\": \"$SHA\", \"ok\": $OKV, \"theorems\": $N, \"seconds\": $(( $(date +%s) - T0 )), \"lean\": \"$(lean --version | cut -c1-40)\"}" > lean/compiled.json
+  fi
+  echo "lean rules: $(cat lean/compiled.json)"
+fi
